@@ -1066,7 +1066,19 @@ public:
   Dom &second() { return m_product.second(); }
 
   bool operator<=(const bool_num_domain_t &other) const override {
-    return m_product <= other.m_product;
+    if (is_bottom()) {
+      return true;
+    } else if (other.is_bottom()) {
+      return false;
+    }
+    // The implications recorded by other must be recorded by *this
+    // too, and they must be usable in *this whenever they are in
+    // other (unchanged variables).
+    return (m_product <= other.m_product &&
+	    m_bool_to_lincsts <= other.m_bool_to_lincsts &&
+	    m_bool_to_refcsts <= other.m_bool_to_refcsts &&
+	    m_bool_to_bools <= other.m_bool_to_bools &&
+	    m_unchanged_vars <= other.m_unchanged_vars);
   }
 
   bool operator==(const bool_num_domain_t &other) const {
